@@ -271,7 +271,8 @@ int muggle_str_toi(const char *str, int *pval, int base)
 			return 0;
 		}
 	}
-	else if ((ret == LONG_MAX || ret == LONG_MIN) && errno == ERANGE)
+
+	if ((ret == LONG_MAX || ret == LONG_MIN) && errno == ERANGE)
 	{
 		// out of range
 		return 0;
